@@ -26,8 +26,11 @@ Definition owner_table : list (string * Z) := [
 ].
 
 (* Why each entry is (un)reachable is stated next to its constant in Model.v [key_ok]:
-   S_FreshSearch / S_FreshMoo : the else-branch of `if type(random_state) is int ... elif isinstance(random_state, RandomState)`;
-                                the property fixes an int seed, and Optimizer._moo_scalarize passes random_state=self.rng (a Pass site).
+   S_FreshSearch / S_FreshMoo : the else-branch of `if <seed test> ... elif isinstance(random_state, RandomState)` (the translator
+                                writes every recognised spelling of the test - `type(random_state) is int`, isinstance(random_state,
+                                numbers.Integral), ... - as <seed test>);
+                                which integers the test accepts is the generated fact seed_test_accepts_numpy_int [key_ok];
+                                Optimizer._moo_scalarize passes random_state=self.rng (a Pass site), never an integer.
    S_SampleChoice             : needs Optimizer._sample_max_size > 0; CBO never passes sample_max_size (fact cbo_opt_kwargs) and the
                                 default is -1 (fact sample_max_size_default): [world_of_facts].
    S_MesRvs                   : _gaussian_acquisition calls gaussian_mes only for acq_func in ["MES"] (after stripping the "d").
@@ -37,8 +40,8 @@ Definition owner_table : list (string * Z) := [
                                 constructions inside the anchors pass objects derived from Search._problem (deep copy of the caller's problem,
                                 environment site Search.__init__ self._problem=copy.deepcopy [Owned]); validated by the shared-problem process pairs. *)
 Definition key_table : list ((string * string * string * string) * Z) := [
-  (("hpo/_search.py", "Search.__init__", "np.random.RandomState", "else:type(random_state) is int"), S_FreshSearch);
-  (("skopt/moo/_multiobjective.py", "MoScalarFunction.__init__", "np.random.RandomState", "else:type(random_state) is int"), S_FreshMoo);
+  (("hpo/_search.py", "Search.__init__", "np.random.RandomState", "else:<seed test>"), S_FreshSearch);
+  (("skopt/moo/_multiobjective.py", "MoScalarFunction.__init__", "np.random.RandomState", "else:<seed test>"), S_FreshMoo);
   (("skopt/optimizer/optimizer.py", "Optimizer._sample", "np.random.choice", "if:self._sample_max_size > 0 and size > self._sample_max_size"), S_SampleChoice);
   (("skopt/acquisition.py", "gaussian_mes", "norm.rvs", ""), S_MesRvs);
   (("skopt/space/space.py", "Space.rvs", "self.model_sdv.sample", "if:self.config_space"), S_SdvSample);
@@ -75,5 +78,6 @@ Definition num_env (f : fact_env) : esite :=
 Definition site_triple (s : site) : Z * Z * Z := (s_owner s, s_key s, s_cls s).
 Definition esite_quad (e : esite) : Z * Z * Z * Z := (e_owner e, e_key e, e_kind e, e_flow e).
 
-Definition world_of_facts (cbo_opt_kwargs : list string) (sample_max_size_default : Z) : world :=
-  {| w_sample_possible := existsb (String.eqb "sample_max_size") cbo_opt_kwargs || (0 <? sample_max_size_default) |}.
+Definition world_of_facts (cbo_opt_kwargs : list string) (sample_max_size_default : Z) (seed_test_accepts_numpy_int : bool) : world :=
+  {| w_sample_possible := existsb (String.eqb "sample_max_size") cbo_opt_kwargs || (0 <? sample_max_size_default);
+     w_npint_seeded := seed_test_accepts_numpy_int |}.
